@@ -27,7 +27,7 @@ import (
 
 const prop = "C18"
 const maxBody = 4 << 20
-const queryTimeout = 25 * time.Second
+const queryTimeout = 15 * time.Second
 
 var queryClient = &http.Client{Timeout: queryTimeout, Transport: &http.Transport{MaxIdleConnsPerHost: 4, DisableCompression: true}}
 
